@@ -22,6 +22,9 @@ def rand_prior(rnd, fam):
         lo = float("%.4g" % rnd.uniform(-50, 50))
         return [fam, lo, float("%.6g" % (lo + gen.logu(rnd, 0.01, 100)))]
     if fam == "gaussian":
+        if rnd.random() < 0.2:
+            # a tight prior far from zero (|mean|/sigma up to 1e7): a form of the density that expands the square cancels here
+            return [fam, float("%.6g" % (rnd.choice([500.0, 2e4, 1e5, 6.02e6, -3e4]) * rnd.uniform(0.5, 1.5))), rnd.choice([1e-3, 0.01, 0.02, 1.0])]
         return [fam, float("%.4g" % rnd.uniform(-50, 50)), gen.nice(rnd, 0.01, 50)]
     if fam == "exponential":
         return [fam, gen.nice(rnd, 0.01, 50)]
